@@ -155,7 +155,7 @@ func checkRetryFailureReturned(c *Ctx, r *Report) {
 			if !isRet || ret.Parent() != fn {
 				return
 			}
-			if nilDecisionOnPath(p, rs.Call) != 1 {
+			if p.nilFound(rs.Call) != 1 {
 				return
 			}
 			n++
